@@ -29,6 +29,7 @@ def prebuild(ctx):
     for f in ('asan', 'rel'):
         ctx.harness('c11_fourcounter', f)
         ctx.harness('c11_fourcounter_mt', f)
+    ctx.harness('c11_delayed_list', 'rel')
 
 
 def run(ctx):
@@ -39,23 +40,24 @@ def run(ctx):
                        'channels are FIFO per pair (or per pair and tag) as MPI guarantees; control may overtake application traffic only in the per-tag mode',
                        'an application message is outstanding from before outgoing_message_start until incoming_message_end and the registration of the work it creates',
                        'liveness bound: 64*N*(log2 N+1) control deliveries after global quiescence (three waves need about 6N)',
-                       'threaded mode: deadlock is declared only on a logically consistent snapshot (activity counter), a run without progress is judged by the stall rule',
+                       'threaded mode: deadlock is declared only on a logically consistent snapshot (activity counter), a run without progress is judged by the stall rule; '
+                       'taskpool_ready and msg_dispatch of different simulated ranks are serialised by the harness because really separate ranks do not share the per-process delayed-message list',
                        'control messages left over after global termination are counted, not judged']
     exe = {f: ctx.harness('c11_fourcounter', f) for f in ('asan', 'rel')}
     exe_mt = {f: ctx.harness('c11_fourcounter_mt', f) for f in ('asan', 'rel')}
     jobs = []      # (mode, flavour, seed, schedules)
     if thorough:
         for i in range(24):
-            jobs.append(('st', 'rel', ctx.seed * 100003 + i, 250000))
+            jobs.append(('st', 'rel', ctx.seed * 100003 + i, 400000))
         for i in range(8):
-            jobs.append(('st', 'asan', ctx.seed * 100003 + 500 + i, 60000))
+            jobs.append(('st', 'asan', ctx.seed * 100003 + 500 + i, 80000))
         mt = [('mt', 'rel', ctx.seed * 100003 + 900 + i, 1500) for i in range(4)] + [('mt', 'asan', ctx.seed * 100003 + 950 + i, 600) for i in range(2)]
     else:
         for i in range(4):
             jobs.append(('st', 'rel', ctx.seed * 100003 + i, 5000))
         for i in range(4):
             jobs.append(('st', 'asan', ctx.seed * 100003 + 500 + i, 1200))
-        mt = [('mt', 'rel', ctx.seed * 100003 + 900, 200), ('mt', 'asan', ctx.seed * 100003 + 950, 100)]
+        mt = [('mt', 'rel', ctx.seed * 100003 + 900, 150), ('mt', 'asan', ctx.seed * 100003 + 950, 60)]
 
     def one(j):
         mode, flavour, seed, n = j
@@ -63,7 +65,7 @@ def run(ctx):
         if mode == 'st':
             cmd = [exe[flavour], '--schedules', str(n), '--seed', str(seed), '--hashfile', hf, '--samples', '1']
         else:
-            cmd = [exe_mt[flavour], '--schedules', str(n), '--seed', str(seed), '--hashfile', hf]
+            cmd = [exe_mt[flavour], '--schedules', str(n), '--seed', str(seed), '--hashfile', hf, '--list-model', 'separate']
         what = 'fourcounter simulation %s %s seed=%d schedules=%d' % j
         if mode == 'st':
             r = ctx.run(cmd, timeout=7200 if thorough else 600, stall_s=120, tag='%s-%s-%d' % (mode, flavour, seed))
@@ -101,6 +103,16 @@ def run(ctx):
         for smp in r.of('sample'):
             ctx.sample({'N': smp['N'], 'waves': smp['waves'], 'reactivations': smp['reactivations'], 'schedule_seed': smp['schedule_seed'],
                         'trace': smp['trace'][:900]})
+    # Deterministic scenario (recorded finding): two dynamic-termination taskpools in ONE process, the delayed-message list lock is
+    # released by a thread that does not hold it and a message is parked for a taskpool that is already ready.  Its key carries the
+    # scenario prefix so that it can never hide a deadlock found by the simulations above.
+    sc = ctx.harness('c11_delayed_list', 'rel')
+    r = ctx.run([sc, '--attempts', '8'], timeout=900, stall_s=300, tag='two-taskpools')
+    st = ctx.absorb(r, 'two taskpools in one process (delayed-message list scenario)', feature='two-taskpools-one-process')
+    s = r.summary()
+    if s:
+        ctx.evaluations += 1
+        ctx.cov['two_taskpools_one_process_scenario'] = {k: s[k] for k in ('attempts_allowed', 'lock_released_under_holder', 'window_missed', 'reproduced', 'both_terminated')}
     ctx.distinct.update(hashes)
     ctx.cov['flavours'] = ['asan', 'rel']
     ctx.cov['modes'] = ['single-threaded seeded scheduler (replayable: harness --one <schedule_seed>)', 'two threads per simulated rank (worker + comm), not replayable']
